@@ -10,6 +10,7 @@ open C06SencModel
 open C06TrexModel
 open C06TimingModel
 open C06SinfModel
+open C06MultiModel
 
 let e = C07Aes.aes128_encrypt
 let d = C07Aes.aes128_decrypt
@@ -349,4 +350,37 @@ let () =
         let box = bytes_of_hex data in
         let model = S.concat "|" (L.map (fun p -> res_string senc_state (senc_parse (n_of_int p) box)) [0; 8; 16; 5]) in
         check id "DecodeSenc + ParseReadBox" model obs
+      | ["H"; id; moofstart; children; mdatstart; di; key; obs] ->
+        let nn s = n_of_int (int_of_string s) in
+        let lst s = if s = "-" then [] else list_of s in
+        let xchildren = L.map (fun x ->
+            match split_on '!' x with
+            | ["T"; track; tb; offs; ivs; subs; data] ->
+              XTraf { x_track = nn track; x_children = tboxes_of tb;
+                      x_offsets = L.map z_of_int (ints_of_csv offs);
+                      x_ivs = L.map bytes_of_hex (lst ivs);
+                      x_subs = L.map ranges_of_string (lst subs);
+                      x_data = L.map bytes_of_hex (if data = "" then [] else split_on ';' data) }
+            | _ -> (match split_on ':' x with
+                | ["P"; z; i] -> XPssh (nn z, nn i)
+                | ["O"; z; i] -> XOther (nn z, nn i)
+                | _ -> failwith ("bad xchild " ^ x))) (if children = "-" || children = "" then [] else split_on '+' children) in
+        let dil = L.map (fun x ->
+            match split_on '=' x with
+            | [t; "-"] -> (nn t, None)
+            | [t; v] -> (match split_on '/' v with
+                | [sch; civ; cb; sb] ->
+                  (nn t, Some { ti_sch = scheme_of sch; ti_constiv = bytes_of_hex civ; ti_cb = nn cb; ti_sb = nn sb })
+                | _ -> failwith ("bad tinfo " ^ v))
+            | _ -> failwith ("bad di " ^ x)) (if di = "-" then [] else split_on ',' di) in
+        let f = { xf_moof_start = nn moofstart; xf_children = xchildren; xf_mdat_start = nn mdatstart } in
+        let show g =
+          S.concat "+" (L.map (function
+              | XTraf t -> S.concat "!" ["T"; string_of_int (int_of_n t.x_track); string_of_tboxes t.x_children;
+                                         (match t.x_offsets with [] -> "-" | l -> S.concat "," (L.map (fun z -> string_of_int (int_of_z z)) l));
+                                         "-"; "-"; S.concat ";" (L.map hex_of_bytes t.x_data)]
+              | XPssh (z, i) -> Printf.sprintf "P:%d:%d" (int_of_n z) (int_of_n i)
+              | XOther (z, i) -> Printf.sprintf "O:%d:%d" (int_of_n z) (int_of_n i)) g.xf_children)
+          ^ "|" ^ string_of_int (int_of_n g.xf_mdat_start) in
+        check id "DecryptFragment (multi-track / multi-trun)" (res_string show (decrypt_multi e d dil (bytes_of_hex key) f)) obs
       | _ -> Printf.printf "BADLINE %s\n" (if S.length line > 200 then S.sub line 0 200 else line))
